@@ -509,6 +509,12 @@ def c03(case: dict, cv: CallView, out: list, budget: BudgetModel) -> dict:
             hj += 1
         if decision == "invalid":
             return info
+        if decision.startswith("str:"):
+            # a plain string instead of the SleepDecision member: refusing it is fine (ValueError, nothing further),
+            # and so is honouring it like the member
+            if end["kind"] == "other" and cv.final.get("type") == "ValueError" and not sleeps and last:
+                return info
+            decision = decision[4:]
         if decision == "defer":
             info["deferred"] = True
             if sleeps or not last:
